@@ -219,7 +219,13 @@ class QuicConn:
         self.c_scid = rbytes(rnd, sp["c_scid_len"])
         self.s_scid = rbytes(rnd, sp["s_scid_len"])
         self.cr = rbytes(rnd, 32)
-        self.offered = sp["offered"] or [suite]
+        self.offered = list(sp["offered"] or [suite])
+        self.excluded = 0
+        if sp["early"] and self.offered[0] != suite and not sp.get("allow_early_suite_not_first"):
+            # open finding F10: 0-RTT keys are derived from the FIRST offered suite until the ServerHello is seen
+            self.offered.remove(suite)
+            self.offered.insert(0, suite)
+            self.excluded += 1
         hl = hashlib.new(h).digest_size
         self.sec = {k: rbytes(rnd, hl) for k in ("chs", "shs", "cap", "sap")}
         cr = self.cr.hex()
@@ -238,6 +244,7 @@ class QuicConn:
         self.largest = {}          # (space, dir) -> largest pn an observer of the capture has seen
         self.next_pn = {}
         self.gen = {False: 0, True: 0}
+        self.sent_gen = {False: set(), True: set()}     # key generations in which each side has sent a 1-RTT packet
         self.dcid_for = {False: self.odcid, True: self.c_scid}   # DCID used by sender dir
         self.issued = {False: [], True: []}                        # CIDs issued BY dir (for use by the peer)
         self.token = b""
@@ -288,12 +295,13 @@ class QuicConn:
         space = {"initial": "i", "handshake": "h", "early": "a", "app": "a"}[kind]
         pn, pn_len = self._pn(space, srv, pn, pn_len)
         if len(frames) + pn_len < 4:       # header-protection sample needs 4 bytes of pn+payload before it
-            frames += b"\x00" * (4 - pn_len - len(frames))
+            frames = b"\x00" * (4 - pn_len - len(frames)) + frames   # PADDING in front: a LEN-less STREAM frame runs to the end
         pnb = (pn & ((1 << 8 * pn_len) - 1)).to_bytes(pn_len, "big")
         dcid = self.dcid_for[srv] if dcid is None else dcid
         gen = None
         if kind == "app":
             gen = self.gen[srv]
+            self.sent_gen[srv].add(gen)
             g = self.keys["app"][srv]
             while len(g) <= gen:
                 g.append(g[-1].next_gen())
@@ -313,15 +321,30 @@ class QuicConn:
             keys = self.keys[kind][srv]
         pn_off = len(hdr)
         hdr += pnb
-        ct = keys.seal(pn, hdr, frames)
-        pkt = bytearray(hdr + ct)
-        sample = bytes(pkt[pn_off + 4: pn_off + 20])
-        mask = keys.mask(sample)
-        pkt[0] ^= mask[0] & (0x1F if kind == "app" else 0x0F)
-        for i in range(pn_len):
-            pkt[pn_off + i] ^= mask[1 + i]
+        while True:
+            ct = keys.seal(pn, hdr, frames)
+            pkt = bytearray(hdr + ct)
+            sample = bytes(pkt[pn_off + 4: pn_off + 20])
+            mask = keys.mask(sample)
+            pkt[0] ^= mask[0] & (0x1F if kind == "app" else 0x0F)
+            for i in range(pn_len):
+                pkt[pn_off + i] ^= mask[1 + i]
+            if kind == "app" and not dcid and any(c and bytes(pkt[1:1 + len(c)]) == c for c in self.all_cids()):
+                # open finding F31: a short-header packet with a zero-length DCID whose first protected bytes spell another
+                # (short) connection ID of the connection.  A sender may pad freely, so the generator avoids the coincidence.
+                if not self.spec.get("allow_cid_coincidence"):
+                    self.excluded += 1
+                    frames = b"\x00" + frames
+                    continue
+                self.features.add("cid_coincidence")
+            break
         self.pkt_log.append({"srv": srv, "kind": kind, "pn": pn, "pn_len": pn_len, "gen": gen, "key": keys.key, "iv": keys.iv, "hp": keys.hp})
         return bytes(pkt)
+
+    def all_cids(self):
+        out = {self.odcid, self.c_scid, self.s_scid} | set(self.issued[False]) | set(self.issued[True])
+        out |= {c for _, c in self.initial_history}
+        return out
 
     def retry_packet(self, new_scid, token):
         # the integrity tag is not verified by a passive observer; 16 arbitrary bytes
@@ -423,8 +446,12 @@ class QuicConn:
         op = st["op"]
         rnd = self.rnd
         if op == "ku":
+            # RFC 9001 6.1/6.2: an endpoint initiates an update only after a packet it sent with the current keys was
+            # acknowledged (so both sides have sent in this generation); a peer follows an update it has seen.
             d = bool(st["d"])
-            if self.gen[d] <= self.gen[not d]:
+            g = self.gen[d]
+            sent = self.sent_gen
+            if g <= self.gen[not d] and g in sent[d] and (g < self.gen[not d] or g in sent[not d]):
                 self.gen[d] += 1
                 self.features.add("key_update")
             return
